@@ -10,6 +10,7 @@ import (
 	"io"
 	"log"
 	"os"
+	"os/exec"
 	"runtime"
 	"strings"
 	"testing"
@@ -219,6 +220,92 @@ func TestVerifC11Netns(t *testing.T) {
 				r.Violation(id, cls, viol, det)
 			} else if r.WantSample() && len(obs) > 2 {
 				r.Sample(det)
+			}
+		}
+	}
+	vTentative(r, base)
+}
+
+// vTentative drives the real dial path on an interface whose link-local
+// address exists but is still tentative (duplicate address detection running):
+// the readiness checks pass, the NDP listener cannot bind (EADDRNOTAVAIL, a
+// retryable error), and the Dialer sits in its retry loop until cancelled.
+// Whatever order dial() does its steps in, afterwards no socket may remain and
+// autoconf must have the value it had before.
+func vTentative(r *vlib.Run, base int) {
+	sh := func(args ...string) error { return exec.Command(args[0], args[1:]...).Run() }
+	reps := r.Pick(1, 4)
+	vtN := 0
+	for rep := 0; rep < reps; rep++ {
+		for _, a0 := range []string{"1", "0"} {
+			for _, cancelAfter := range []time.Duration{150 * time.Millisecond, 700 * time.Millisecond} {
+				id := fmt.Sprintf("tentative/%d/%s/%v", rep, a0, cancelAfter)
+				if !r.Mine(id) {
+					continue
+				}
+				r.Begin(id)
+				// A fresh name every time: package net caches zone indices by name.
+				vtN++
+				vt, vu := fmt.Sprintf("vt%d", vtN), fmt.Sprintf("vu%d", vtN)
+				if err := sh("ip", "link", "add", vt, "type", "veth", "peer", "name", vu); err != nil {
+					r.Inconclusive(id, "cannot create the veth pair: "+err.Error())
+					continue
+				}
+				conf := "/proc/sys/net/ipv6/conf/" + vt + "/"
+				_ = os.WriteFile(conf+"accept_dad", []byte("1"), 0o644)
+				_ = os.WriteFile(conf+"dad_transmits", []byte("30"), 0o644)
+				_ = os.WriteFile(conf+"accept_ra", []byte("0"), 0o644)
+				_ = os.WriteFile(conf+"autoconf", []byte(a0), 0o644)
+				_ = sh("ip", "link", "set", vu, "up")
+				_ = sh("ip", "link", "set", vt, "up")
+				tentative := false
+				for i := 0; i < 100 && !tentative; i++ {
+					out, _ := exec.Command("ip", "-6", "addr", "show", "dev", vt, "scope", "link").Output()
+					tentative = strings.Contains(string(out), "tentative")
+					if !tentative {
+						time.Sleep(20 * time.Millisecond)
+					}
+				}
+				if !tentative {
+					r.Inconclusive(id, "no tentative link-local address appeared")
+					_ = sh("ip", "link", "del", vt)
+					continue
+				}
+				var logs strings.Builder
+				fs := &faultState{real: NewState()}
+				d := NewDialer(vt, fs, Advertise, log.New(&logs, "", 0))
+				ctx, cancel := context.WithCancel(context.Background())
+				tm := time.AfterFunc(cancelAfter, cancel)
+				called := 0
+				err := d.Dial(ctx, func(ctx context.Context, _ *DialContext) error {
+					called++
+					cancel()
+					return nil
+				})
+				tm.Stop()
+				cancel()
+				socks, auto := vRawSockets(), vAutoconf(vt)
+				bindFailed := strings.Contains(logs.String(), "cannot assign requested address")
+				det := map[string]any{"autoconf_before": a0, "autoconf_after": auto, "raw6_sockets_over_base": socks - base,
+					"task_runs": called, "dial_error": fmt.Sprint(err), "state_calls": fs.log, "dialer_log": logs.String()}
+				if bindFailed && called == 0 {
+					r.Nontrivial(id)
+					r.Count("listen_failed_on_tentative_address", 1)
+				} else {
+					r.Count("tentative_not_reached", 1)
+				}
+				r.Count("quiescent_observations", 1)
+				switch {
+				case socks != base:
+					r.Violation(id, "netns:leak:", fmt.Sprintf("leak: %d NDP socket(s) still open after Dial returned although the listener could not be opened", socks-base), det)
+				case auto != a0:
+					r.Violation(id, "netns:autoconf", fmt.Sprintf("autoconf is %s after Dial returned, it was %s before (the listener could never be opened)", auto, a0), det)
+				default:
+					if r.WantSample() {
+						r.Sample(det)
+					}
+				}
+				_ = sh("ip", "link", "del", vt)
 			}
 		}
 	}
